@@ -327,6 +327,16 @@ class NPShim(types.ModuleType):
                 out = _np.empty(xa.shape, dtype=object)
                 for idx, v in _np.ndenumerate(xa):
                     out[idx] = f(v, *aa, **kk)
+                first = out.ravel()[0]
+                if isinstance(first, tuple):
+                    # several outputs: numpy.vectorize returns a tuple of arrays
+                    outs = []
+                    for k in range(len(first)):
+                        o = _np.empty(xa.shape, dtype=object)
+                        for idx in _np.ndindex(xa.shape):
+                            o[idx] = out[idx][k]
+                        outs.append(o)
+                    return tuple(outs)
                 # numpy.vectorize would infer the dtype from the first result
                 if out.size and all(isinstance(v, (float, int, _np.floating, _np.integer)) and not isinstance(v, bool) for v in out.ravel()):
                     return out.astype(type(out.ravel()[0]))
